@@ -361,10 +361,14 @@ def sensitive_now(sess, exact_formula):
     """rounding-sensitive situations that the exact model cannot be expected to reproduce"""
     raw = sess.raw()
     xr = sess.ev.settings.xrange
-    if xr and not exact_formula:      # a sample within rounding distance of a range boundary
+    try:
+        bounds = (float(xr[0]), float(xr[1])) if xr else None
+    except (TypeError, ValueError, IndexError):
+        bounds = None                 # not a pair of numbers (left behind by a rejected request): nothing to judge here
+    if bounds and not exact_formula:      # a sample within rounding distance of a range boundary
         big = max([abs(x) for x in raw] + [0.0])
         for x in raw:
-            for b in (float(xr[0]), float(xr[1])):
+            for b in bounds:
                 if abs(x - b) <= 1e-9 * max(big, abs(b)):
                     return "near-range-boundary"
     if sess.strategy() != "Mode":
@@ -445,7 +449,7 @@ def history_features(case, run):
     for o, (ob, w1, w2) in zip(case["ops"], run["obs"]):
         if ob[0] == "exn":
             tags.add("exn:" + o[0])
-        if o[0] == "inspect":
+        if o[0] == "inspect" and ob[0] == "info":
             strat = ob[3]
             if ob[4] is not None:
                 tags.add("range-set")
@@ -706,6 +710,13 @@ def check_reported(sess, S):
         return "repeated reads differ: ({}, {}) then ({}, {})".format(v1, e1, v2, e2)
     m = r.mc
     strat, conf, xr = mc.STRAT[m.strategy], m.confidence, m.xrange
+    if xr:
+        try:
+            ok_ = len(xr) == 2 and float(xr[0]) <= float(xr[1])
+        except (TypeError, ValueError):
+            ok_ = False
+        if not ok_:
+            return "the configured range reads back as {!r}, which is not a range".format(xr)
     xs = [Fraction(float(x)) for x in S]
     sc = max([abs(x) for x in xs] + [Fraction(0)]) or Fraction(1)
     v, e = mc.num_obs(v1), mc.num_obs(e1)
@@ -759,7 +770,11 @@ def settings_snapshot(sess):
     """range, confidence, strategy, sample size as the public API reads them back"""
     m = sess.res.mc
     xr = m.xrange
-    return (tuple(float(x) for x in xr) if xr else (), float(m.confidence), mc.STRAT[m.strategy], int(m.sample_size))
+    try:
+        rng_ = tuple(float(x) for x in xr) if xr else ()
+    except (TypeError, ValueError):
+        rng_ = repr(xr)             # whatever was left there
+    return (rng_, float(m.confidence), mc.STRAT[m.strategy], int(m.sample_size))
 
 
 def check_history_oracle(case, total_formula=None):
